@@ -104,7 +104,7 @@ func opsText(ops []op) string {
 
 // witness is the replayable description of any case of this check.
 type witness struct {
-	Kind    string `json:"kind"` // geom | seq | walk | conc
+	Kind    string `json:"kind"` // geom | seq | walk | conc | long
 	BS      int    `json:"bs"`
 	Size    int64  `json:"size"`
 	Fit     bool   `json:"fit"`
@@ -725,7 +725,11 @@ func (m *mon) reopenBytes(data []byte, how string) *vio {
 			seen := make([]bool, m.count)
 			for k := 0; k < m.count; k++ {
 				idx, err := b.ArrangeBlock()
-				if err != nil || idx < 0 || idx >= m.count || seen[idx] {
+				if err == nil && idx >= 0 && idx < m.count && seen[idx] {
+					v = vf("blocks/reopen/"+how+"/set", "reopened allocator (emptied, then filled again) returned index %d twice, at its allocation #%d of %d", idx, k+1, m.count)
+					return
+				}
+				if err != nil || idx < 0 || idx >= m.count {
 					missing := -1
 					for i, s := range seen {
 						if !s {
@@ -2084,6 +2088,471 @@ func concurrency(run *report.Run, heavy bool) {
 }
 
 // ---------------------------------------------------------------------------------------------------
+// long sequential runs on large segments (headers of many bytes / several pages)
+
+// longBufs are the two buffers of one long run: the allocator's own and a shadow of the same size that only ever
+// receives copies of the header block(s) and is reopened there. Both are NewInMemBytes(size) taken when the process
+// has not yet freed any large object, so they are never-touched (lazily zeroed) memory: block contents are NEVER
+// written by a long run, only ArrangeBlock/FreeBlock touch the headers, so a buffer of several GB stays virtual.
+type longBufs struct {
+	main, shadow cbytes.Buffer
+}
+
+func newLongBufs(size int64) *longBufs {
+	return &longBufs{cbytes.NewInMemBytes(int(size)), cbytes.NewInMemBytes(int(size))}
+}
+
+func peakRSSkB() int64 {
+	b, err := os.ReadFile("/proc/self/status")
+	if err != nil {
+		return -1
+	}
+	for _, l := range strings.Split(string(b), "\n") {
+		if strings.HasPrefix(l, "VmHWM:") {
+			var kb int64
+			fmt.Sscanf(strings.TrimSpace(l[len("VmHWM:"):]), "%d", &kb)
+			return kb
+		}
+	}
+	return -1
+}
+
+// runLong fills every block of the geometry sequentially (result oracle after every call: index new, < Count,
+// Available == Count - allocated, ErrExhausted only when full), probes a reopen of the header bytes at every
+// 4096-byte boundary of the header (after k*32768 and k*32768+1 allocations), at 40000 and at the end, frees a
+// spread of indices on both sides of those boundaries and of the segment boundaries plus random ones, re-allocates
+// and requires exactly the freed indices to come back, each once, followed by ErrExhausted.
+func runLong(w witness, lb *longBufs, cnt map[string]int64) (v *vio, herr error) {
+	bs, size := w.BS, w.Size
+	if !validBS(bs) || size < segSize(bs) || (w.Fit && size%segSize(bs) != 0) {
+		return nil, errHarness{fmt.Errorf("runLong: geometry bs=%d size=%d is not acceptable", bs, size)}
+	}
+	if lb == nil {
+		lb = newLongBufs(size)
+	}
+	segSz := segSize(bs)
+	segs := int(size / segSz)
+	B := bs * 8
+	count := segs * B
+	pre := fmt.Sprintf("long run bs=%d segments=%d (%d blocks, header %d bytes per segment) seed=%d: ", bs, segs, count, bs, w.Seed)
+	fail := func(sig, format string, a ...any) *vio {
+		return &vio{"blocks/longrun/" + sig, pre + fmt.Sprintf(format, a...)}
+	}
+	var bks *cbytes.Blocks
+	var err error
+	if p := guard(func() { bks, err = cbytes.NewBlocks(bs, lb.main, w.Fit) }); p != nil || err != nil || bks == nil {
+		return fail("open", "NewBlocks(bs=%d, size=%d, fit=%v): err=%v panic=%v", bs, size, w.Fit, err, p), nil
+	}
+	if bks.Count() != count || bks.Available() != count || bks.Segments() != segs {
+		return fail("open", "Count()=%d Available()=%d Segments()=%d want %d, %d, %d", bks.Count(), bks.Available(), bks.Segments(), count, count, segs), nil
+	}
+	var base []byte
+	if p := guard(func() { base, err = lb.main.Buffer(0, int(size)) }); p != nil || err != nil || int64(len(base)) != size {
+		return nil, errHarness{fmt.Errorf("Buffer(0,%d): %v %v", size, err, p)}
+	}
+	alloc := make([]bool, count)
+	n := 0
+	rng := rand.New(rand.NewSource(w.Seed))
+
+	arrange := func(what string) (int, *vio) {
+		var idx int
+		var err error
+		if p := guard(func() { idx, err = bks.ArrangeBlock() }); p != nil {
+			return -1, fail("panic", "%s: ArrangeBlock panicked with %d of %d allocated: %v", what, n, count, p)
+		}
+		if err != nil {
+			if !errors.Is(err, gerrors.ErrExhausted) {
+				return -1, fail("Arrange/unexpected-error", "%s: ArrangeBlock with %d of %d allocated: %v", what, n, count, err)
+			}
+			if n != count {
+				return -1, fail("exhausted-with-free-blocks", "%s: ErrExhausted with %d of %d blocks allocated", what, n, count)
+			}
+			return -1, nil
+		}
+		if idx < 0 || idx >= count {
+			return -1, fail("index-out-of-range", "%s: ArrangeBlock #%d returned %d, Count()=%d", what, n+1, idx, count)
+		}
+		if alloc[idx] {
+			return -1, fail("double-allocation", "%s: ArrangeBlock #%d returned %d which is still allocated (%d of %d allocated)", what, n+1, idx, n, count)
+		}
+		if n == count {
+			return -1, fail("not-exhausted-when-full", "%s: ArrangeBlock returned %d with all %d blocks allocated", what, idx, count)
+		}
+		alloc[idx] = true
+		n++
+		if a := bks.Available(); a != count-n {
+			return idx, fail("available", "%s: after ArrangeBlock #%d -> %d: Available()=%d want %d-%d=%d", what, n, idx, a, count, n, count-n)
+		}
+		return idx, nil
+	}
+	free := func(what string, idx int) *vio {
+		var err error
+		if p := guard(func() { err = bks.FreeBlock(idx) }); p != nil {
+			return fail("panic", "%s: FreeBlock(%d) panicked: %v", what, idx, p)
+		}
+		if alloc[idx] {
+			if err != nil {
+				return fail("Free/allocated-refused", "%s: FreeBlock(%d) of an allocated block: %v", what, idx, err)
+			}
+			alloc[idx] = false
+			n--
+		} else {
+			if err == nil {
+				return fail("Free/free-block-accepted", "%s: FreeBlock(%d) of a free block returned nil", what, idx)
+			}
+			if !errors.Is(err, gerrors.ErrNotExist) {
+				return fail("Free/free-block-wrong-class", "%s: FreeBlock(%d) of a free block: %v", what, idx, err)
+			}
+		}
+		if a := bks.Available(); a != count-n {
+			return fail("available", "%s: after FreeBlock(%d): Available()=%d want %d-%d=%d", what, idx, a, count, n, count-n)
+		}
+		return nil
+	}
+	// reopen: only the header block of every segment is copied into the shadow buffer (the rest of it has never
+	// been written), a second allocator is opened there and probed.
+	reopen := func(what string, literal bool) *vio {
+		if cnt != nil {
+			cnt["long_reopen_probes"]++
+		}
+		var v *vio
+		if p := guard(func() {
+			for s := 0; s < segs; s++ {
+				src, e1 := lb.main.Buffer(int64(s)*segSz, bs)
+				dst, e2 := lb.shadow.Buffer(int64(s)*segSz, bs)
+				if e1 != nil || e2 != nil || len(src) != bs || len(dst) != bs {
+					v = fail("reopen", "%s: header of segment %d not readable: %v %v", what, s, e1, e2)
+					return
+				}
+				copy(dst, src)
+			}
+			b2, err := cbytes.NewBlocks(bs, lb.shadow, w.Fit)
+			if err != nil || b2 == nil {
+				v = fail("reopen", "%s: NewBlocks on a copy of the header bytes failed: %v", what, err)
+				return
+			}
+			if a := b2.Available(); a != count-n || b2.Count() != count {
+				v = fail("reopen", "%s: reopened on a copy of the header bytes: Available()=%d Count()=%d, the model has %d of %d allocated (want Available %d)", what, a, b2.Count(), n, count, count-n)
+				return
+			}
+			if literal {
+				for i := 0; i < count; i++ {
+					err := b2.FreeBlock(i)
+					switch {
+					case err == nil && !alloc[i]:
+						v = fail("reopen", "%s: the reopened allocator has block %d allocated, the model has it free", what, i)
+					case err != nil && alloc[i]:
+						v = fail("reopen", "%s: the reopened allocator does not have block %d allocated (%v), the model has", what, i, err)
+					case err != nil && !errors.Is(err, gerrors.ErrNotExist):
+						v = fail("reopen", "%s: reopened FreeBlock(%d) of a free block: %v", what, i, err)
+					}
+					if v != nil {
+						return
+					}
+				}
+				if a := b2.Available(); a != count {
+					v = fail("reopen", "%s: reopened allocator after freeing every block: Available()=%d want %d", what, a, count)
+				}
+				return
+			}
+			for i := 0; i < count; i++ {
+				if alloc[i] {
+					if err := b2.FreeBlock(i); err != nil {
+						v = fail("reopen", "%s: the reopened allocator does not have block %d allocated (%v), the model has", what, i, err)
+						return
+					}
+				}
+			}
+			seen := make([]bool, count)
+			for k := 0; k < count; k++ {
+				idx, err := b2.ArrangeBlock()
+				if err == nil && idx >= 0 && idx < count && seen[idx] {
+					v = fail("reopen", "%s: the reopened allocator (emptied, then filled again) returned index %d twice, at its allocation #%d of %d", what, idx, k+1, count)
+					return
+				}
+				if err != nil || idx < 0 || idx >= count {
+					v = fail("reopen", "%s: the reopened allocator, after freeing the %d blocks of the model, hands out only %d of %d blocks (idx=%d err=%v): it has blocks allocated that the model has free", what, n, k, count, idx, err)
+					return
+				}
+				seen[idx] = true
+			}
+			if _, err := b2.ArrangeBlock(); !errors.Is(err, gerrors.ErrExhausted) {
+				v = fail("reopen", "%s: the reopened allocator is not exhausted after %d allocations: %v", what, count, err)
+			}
+		}); p != nil {
+			return fail("panic", "%s: reopen probe panicked: %v", what, p)
+		}
+		return v
+	}
+	// address ranges of a sample of blocks (nothing is written or read)
+	blocksAt := func(what string, idxs []int) *vio {
+		type po struct {
+			off int64
+			idx int
+		}
+		var l []po
+		var v *vio
+		if p := guard(func() {
+			for _, i := range idxs {
+				if i < 0 || i >= count {
+					continue
+				}
+				blk, err := bks.Block(i)
+				if err != nil || len(blk) != bs {
+					v = fail("Block", "%s: Block(%d): len=%d err=%v", what, i, len(blk), err)
+					return
+				}
+				off := int64(uintptr(unsafe.Pointer(unsafe.SliceData(blk)))) - int64(uintptr(unsafe.Pointer(unsafe.SliceData(base))))
+				if off < 0 || off+int64(bs) > size {
+					v = fail("Block", "%s: Block(%d) = bytes [%d,%d) of a buffer of %d bytes", what, i, off, off+int64(bs), size)
+					return
+				}
+				s0, s1 := off/segSz, (off+int64(bs)-1)/segSz
+				if (s1 != s0 && s1 < int64(segs)) || (s0 < int64(segs) && off-s0*segSz < int64(bs)) {
+					v = fail("Block", "%s: Block(%d) = bytes [%d,%d) overlaps a segment header", what, i, off, off+int64(bs))
+					return
+				}
+				l = append(l, po{off, i})
+			}
+			for _, i := range []int{-1, count} {
+				if _, err := bks.Block(i); !errors.Is(err, gerrors.ErrInvalid) {
+					v = fail("Block", "%s: Block(%d) with Count()=%d: err=%v, want ErrInvalid", what, i, count, err)
+					return
+				}
+			}
+		}); p != nil {
+			return fail("panic", "%s: Block panicked: %v", what, p)
+		}
+		if v != nil {
+			return v
+		}
+		sort.Slice(l, func(a, b int) bool { return l[a].off < l[b].off })
+		for i := 1; i < len(l); i++ {
+			if l[i].idx != l[i-1].idx && l[i].off-l[i-1].off < int64(bs) {
+				return fail("Block", "%s: Block(%d) = [%d,%d) and Block(%d) = [%d,%d) overlap", what, l[i-1].idx, l[i-1].off, l[i-1].off+int64(bs), l[i].idx, l[i].off, l[i].off+int64(bs))
+			}
+		}
+		return nil
+	}
+	// indices on both sides of every 4096-byte boundary of a header (32768 blocks per header page), of every
+	// segment boundary, the ends, and random ones
+	var spread []int
+	inSpread := map[int]bool{}
+	add := func(i int) {
+		if i >= 0 && i < count && !inSpread[i] {
+			inSpread[i] = true
+			spread = append(spread, i)
+		}
+	}
+	for s := 0; s < segs; s++ {
+		for b := 0; b <= B; b += 32768 {
+			for d := -8; d < 8; d++ {
+				add(s*B + b + d)
+			}
+		}
+		for d := -8; d < 8; d++ {
+			add(s*B + B + d)
+			add(s*B + 65536 - 6 + d) // 65530..65545 and neighbours
+		}
+	}
+	for i := 0; i < 3000 && i < count/4; i++ {
+		add(rng.Intn(count))
+	}
+
+	probeAt := map[int]bool{40000: true, count: true}
+	for k := 32768; k < count; k += 32768 {
+		probeAt[k], probeAt[k+1], probeAt[k+2] = true, true, true
+	}
+	if count <= 32768 { // small headers: a few evenly spaced probes instead
+		for k := 1; k <= 4; k++ {
+			probeAt[k*count/5] = true
+		}
+	}
+	// phase 1: fill sequentially
+	for n < count {
+		idx, v := arrange("filling")
+		if v != nil {
+			return v, nil
+		}
+		if idx < 0 {
+			return fail("exhausted-with-free-blocks", "filling: ErrExhausted with %d of %d allocated", n, count), nil
+		}
+		if probeAt[n] {
+			// around the header-page boundaries the literal probe (FreeBlock on every index: no allocation in the
+			// reopened allocator, so that a fault of ArrangeBlock shows up in the allocator under test first),
+			// elsewhere the cheap one
+			if v := reopen(fmt.Sprintf("after %d sequential allocations", n), n%32768 <= 2); v != nil {
+				return v, nil
+			}
+			if v := blocksAt(fmt.Sprintf("after %d sequential allocations", n), []int{0, 1, idx - 1, idx, idx + 1, count - 1, rng.Intn(count), rng.Intn(count)}); v != nil {
+				return v, nil
+			}
+		}
+	}
+	if cnt != nil {
+		cnt["long_sequential_allocations"] += int64(count)
+	}
+	if _, v := arrange("full"); v != nil {
+		return v, nil
+	}
+	if n != count {
+		return fail("not-exhausted-when-full", "an allocation succeeded with all %d blocks allocated", count), nil
+	}
+	if v := blocksAt("full", spread); v != nil {
+		return v, nil
+	}
+	// phase 2: rounds of free-a-spread / re-allocate
+	for round := 0; round < 3; round++ {
+		order := append([]int(nil), spread...)
+		rng.Shuffle(len(order), func(i, j int) { order[i], order[j] = order[j], order[i] })
+		if round == 2 {
+			sort.Sort(sort.Reverse(sort.IntSlice(order))) // hint lowered step by step from the top
+		}
+		what := fmt.Sprintf("round %d, freeing %d blocks around the header-page and segment boundaries", round, len(order))
+		for k, i := range order {
+			if v := free(what, i); v != nil {
+				return v, nil
+			}
+			if k%7 == 0 { // a second free of the same block must be refused
+				if v := free(what+" (again)", i); v != nil {
+					return v, nil
+				}
+			}
+			if round == 1 && k%5 == 0 {
+				// free one / allocate one: the hint is lowered into a header byte and must find exactly that block
+				idx, v := arrange(what + ", re-allocating at once")
+				if v != nil {
+					return v, nil
+				}
+				if idx < 0 {
+					return fail("exhausted-with-free-blocks", "%s: ErrExhausted right after FreeBlock(%d)", what, i), nil
+				}
+			}
+		}
+		if cnt != nil {
+			cnt["long_frees"] += int64(len(order))
+		}
+		if v := reopen(what, round == 0); v != nil {
+			return v, nil
+		}
+		freed := map[int]bool{}
+		for i, a := range alloc {
+			if !a {
+				freed[i] = true
+			}
+		}
+		want := len(freed)
+		for k := 0; k < want; k++ {
+			idx, v := arrange(fmt.Sprintf("round %d, re-allocating %d freed blocks", round, want))
+			if v != nil {
+				return v, nil
+			}
+			if idx < 0 || !freed[idx] {
+				return fail("refill-set", "round %d: re-allocation %d of %d returned %d which is not one of the freed blocks", round, k+1, want, idx), nil
+			}
+			delete(freed, idx)
+		}
+		if idx, v := arrange("full again"); v != nil {
+			return v, nil
+		} else if idx >= 0 || n != count {
+			return fail("not-exhausted-when-full", "round %d: not exhausted after all freed blocks came back", round), nil
+		}
+	}
+	if v := reopen("at the end (all blocks allocated)", false); v != nil {
+		return v, nil
+	}
+	// drain the top half and a prefix, reopen with the literal probe
+	for i := count - 1; i >= count/2; i-- {
+		if v := free("draining the upper half", i); v != nil {
+			return v, nil
+		}
+	}
+	for i := 0; i < 100 && i < count/2; i++ {
+		if v := free("draining a prefix", i); v != nil {
+			return v, nil
+		}
+	}
+	if v := reopen("after draining the upper half and blocks 0..99", true); v != nil {
+		return v, nil
+	}
+	for k := 0; k < 100 && k < count/2; k++ {
+		idx, v := arrange("re-allocating the prefix")
+		if v != nil {
+			return v, nil
+		}
+		if idx < 0 {
+			return fail("exhausted-with-free-blocks", "ErrExhausted with %d of %d allocated", n, count), nil
+		}
+	}
+	return nil, nil
+}
+
+type longCase struct {
+	w  witness
+	lb *longBufs
+}
+
+// longCases allocates the buffers of all long runs. It must be called before anything large has been freed.
+func longCases(run *report.Run) []longCase {
+	seed := run.Seed()*104729 + 5
+	type lg struct {
+		bs, segs int
+	}
+	gs := []lg{{3 * page, 1}, {512, 3}, {page, 2}}
+	if run.Thorough() {
+		gs = append(gs, lg{3 * page, 2}, lg{5 * page, 1}, lg{6 * page, 1}, lg{2 * page, 1}, lg{7 * page, 1})
+	}
+	var l []longCase
+	for i, g := range gs {
+		w := witness{Kind: "long", BS: g.bs, Size: int64(g.segs) * segSize(g.bs), Fit: true, Backend: "inmem", Seed: seed + int64(i)}
+		l = append(l, longCase{w, newLongBufs(w.Size)})
+	}
+	return l
+}
+
+func longRuns(run *report.Run, cases []longCase) {
+	var wg sync.WaitGroup
+	var mu sync.Mutex
+	total := map[string]int64{}
+	for _, c := range cases {
+		wg.Add(1)
+		go func(c longCase) {
+			defer wg.Done()
+			cnt := map[string]int64{}
+			v, herr := runLong(c.w, c.lb, cnt)
+			if herr != nil {
+				run.Inconclusive(herr.Error())
+				return
+			}
+			run.Eval(1)
+			run.Add("long_runs", 1)
+			run.DistinctStr(fmt.Sprintf("long bs=%d size=%d", c.w.BS, c.w.Size))
+			if v != nil {
+				run.Violation(v.sig, v.what, c.w)
+			}
+			mu.Lock()
+			for k, n := range cnt {
+				total[k] += n
+			}
+			mu.Unlock()
+		}(c)
+	}
+	wg.Wait()
+	for k, n := range total {
+		run.Add(k, n)
+	}
+	var geoms []string
+	var virt int64
+	for _, c := range cases {
+		geoms = append(geoms, fmt.Sprintf("bs=%d x %d segment(s) = %d blocks", c.w.BS, c.w.Size/segSize(c.w.BS), c.w.Size/segSize(c.w.BS)*int64(c.w.BS)*8))
+		virt += 2 * c.w.Size
+	}
+	run.Note("long_run_geometries", geoms)
+	run.Note("long_run_virtual_bytes", virt)
+	run.Note("long_run_peak_rss_kB_after", peakRSSkB())
+}
+
+// ---------------------------------------------------------------------------------------------------
 
 func TestCheck(t *testing.T) {
 	run := report.New("C17", "exploration")
@@ -2110,6 +2579,13 @@ func TestCheck(t *testing.T) {
 	t0 := time.Now()
 	lap := func(name string) { phases[name] = time.Since(t0).Seconds(); t0 = time.Now() }
 	defer func() { run.Note("phase_wall_s", phases) }()
+	// the long runs first: their buffers (GBs, virtual) must be taken while the heap has never freed a large object,
+	// and are dropped again before the allocation-heavy phases so that they do not distort the GC pacing
+	lcs := longCases(run)
+	longRuns(run, lcs)
+	lcs = nil
+	debug.FreeOSMemory()
+	lap("long_runs")
 	geometrySweep(run)
 	lap("geometry")
 	plan := enumPlan{maxDepth: 8, emptyDepth: func(int, int) int { return 8 }, leafCap: 150_000}
@@ -2144,6 +2620,7 @@ func TestCheck(t *testing.T) {
 	}
 	concurrency(run, false)
 	lap("concurrency")
+	run.Note("peak_rss_kB", peakRSSkB())
 }
 
 func replay(run *report.Run, path string) {
@@ -2172,6 +2649,8 @@ func replay(run *report.Run, path string) {
 		v, herr = runSeq(w, nil)
 	case "walk":
 		v, _, herr = runWalk(w, nil, nil)
+	case "long":
+		v, herr = runLong(w, nil, nil)
 	case "conc":
 		for i := 0; i < 20 && v == nil && herr == nil; i++ { // schedules differ from run to run
 			v, herr = runConc(w, nil)
